@@ -624,7 +624,7 @@ class CallMixin:
             return Sym('len', a0)
         if d in ('int', 'float') and args and not is_const(a0) and not is_numeric_expr(a0):
             self.risk(fr, 'int', ('builtins.ValueError',), a0, node)
-        if d == 'next' and args:
+        if d == 'next' and len(args) == 1:      # next(it, default) returns the default instead of raising
             self.risk(fr, 'next', ('builtins.StopIteration',), a0, node)
         if d in ('int', 'float', 'str', 'bool', 'bytes', 'ord', 'chr', 'abs') and len(args) <= 2:
             if args and all(is_const(a) for a in args) and not kwargs:
